@@ -525,7 +525,7 @@ func corrProg(o corrOpts) *res.Summary {
 			if o.replay != "" {
 				seed = seeds[0]
 			}
-			opt := gen.Options{Root: fmt.Sprintf("k%d", i), Ignores: i%3 != 0, TestFiles: i%4 == 1, NearMiss: i%5 == 2, Spelling: []int{0, 0, 0, 1, 3, 4}[i%6]}
+			opt := gen.Options{Root: fmt.Sprintf("k%d", i), Ignores: i%3 != 0, TestFiles: i%4 == 1, NearMiss: i%5 == 2, Spelling: []int{0, 0, 0, 1, 3, 4, 5}[i%7]}
 			if o.extra["testfiles"] == "1" {
 				opt.TestFiles = true
 			}
@@ -539,7 +539,7 @@ func corrProg(o corrOpts) *res.Summary {
 				opt = optsFromBits(bits)
 				opt.Root = "k0"
 			}
-			specs = append(specs, genSpec{seed: seed, o: opt, impl: o.extra["impl"] == "1" || (o.extra["impl"] == "" && o.replay == "" && i%7 == 3)})
+			specs = append(specs, genSpec{seed: seed, o: opt, impl: o.extra["impl"] == "1" || (o.extra["impl"] == "" && o.extra["noann"] == "" && o.replay == "" && i%7 == 3)})
 		}
 		dir := scratchDir("prog")
 		_, err := writeModule(dir, specs)
